@@ -183,10 +183,26 @@ def selfcheck_corpus():
 SELFCHECKS.append(selfcheck_corpus)
 
 
+def _send_tx_target():
+    """The statement's last sentence through the library's own signer: send_tx with segwit-family senders builds the BIP143
+    messages, signs them and assembles the spending transaction; every input must verify under the reference BIP143
+    digest of THAT transaction (generator, scripted RPC and interpreter are those of property C16)."""
+    from vf.props import C16
+
+    return Target(
+        "send-tx-segwit",
+        C16.check,
+        strategy=lambda tier: C16.cases(signed=True, kinds=C16.SEGWIT),
+        budget={"quick": 240, "thorough": 4000},
+        required=["nt:n_in>=2", "nt:flag!=ALL", "nt:non-default-version-locktime", "nt:sign/segwit/single-with-input-index-beyond-outputs"],
+    )
+
+
 def targets(tier):
     req = [f"nt:{FLAGNAME[fl]}/{w}" for fl in (3, 0x83) for w in ("idx<out", "idx>=out")] + ["flag:" + n for n in FLAGNAME.values()]
     return [
         Target("preimage", check, strategy=lambda tier: cases(), budget={"quick": 8000, "thorough": 250000}, required=req + ["nt:scriptcode>=253", "nt:index>0", "nt:after-related-tx"]),
         Target("signed", check, strategy=lambda tier: cases(sign=True), budget={"quick": 96, "thorough": 2000}, required=["nt:signed"]),
         Target("fixed-corpus", check, enumerate_=enum_corpus, shards=1),
+        _send_tx_target(),
     ]
